@@ -1,5 +1,6 @@
 import DdoModel.Engines.Small
 import DdoModel.Engines.Fringe
+import DdoModel.Engines.Mdd
 /-! Line-protocol driver.  stdin: pairs of lines
       `C <engine> <id> <case tokens…>`
       `I <id> <implementation output tokens…>`
@@ -13,6 +14,7 @@ def dispatch (engine : String) (c i : List String) : Option Res :=
   | "cache" => cacheEngine c i
   | "dom" => domEngine c i
   | "fringe" => fringeEngine c i
+  | "mdd" => mddEngine c i
   | _ => none
 
 partial def loop (h : IO.FS.Stream) (out : IO.FS.Stream) : IO Unit := do
